@@ -56,6 +56,8 @@ type VerifTransport struct {
 	transportBase
 	Frames  [][]byte // frames accepted (len <= MTU), copies
 	Dropped [][]byte // frames refused because len > MTU, copies
+
+	QueueSize uint64 // what GetSendQueueSize reports (socket send queue length of a real transport)
 }
 
 // NewVerifTransport makes an in-memory transport with the given MTU and scope.
@@ -68,7 +70,7 @@ func NewVerifTransport(mtu int, scope defn.Scope) *VerifTransport {
 
 func (t *VerifTransport) String() string                  { return "VerifTransport" }
 func (t *VerifTransport) SetPersistency(Persistency) bool { return true }
-func (t *VerifTransport) GetSendQueueSize() uint64        { return 0 }
+func (t *VerifTransport) GetSendQueueSize() uint64        { return t.QueueSize }
 func (t *VerifTransport) runReceive()                     {}
 func (t *VerifTransport) Close()                          { t.running.Store(false) }
 
